@@ -294,6 +294,36 @@ pub fn run(tier: Tier) -> i32 {
             }
         }
     }
+    // detector table: every subset of bytes 10..15 (the first six bytes of the second word) zero in a format-2
+    // payload; only the full set is the known finding above, every other subset must be cut in 10-byte words
+    for mask in 0u8..63 {
+        let mut p = Vec::new();
+        p.extend_from_slice(&marked_word(0));
+        let mut w = marked_word(1);
+        for b in 0..6 {
+            if mask & (1 << b) != 0 {
+                w[b] = 0;
+            } else if w[b] == 0 {
+                w[b] = 0x5A;
+            }
+        }
+        p.extend_from_slice(&w);
+        p.extend_from_slice(&marked_word(2));
+        p.extend_from_slice(&[0xFF, 0xFF]);
+        let model = payload::slice(&p, 2);
+        let got = val::guarded(|| preprocess_payload(&p).map(|c| c.map(|w| w[..10].to_vec()).collect::<Vec<_>>()));
+        if let (Sliced::Words(m), Ok(Ok(ws))) = (&model, &got) {
+            if m.len() != ws.len() || m.iter().zip(ws.iter()).any(|(a, b)| a.bytes[..] != b[..]) {
+                rep.violation(Violation {
+                    signature: "slice:format-misdetected:partly-zero-second-word".into(),
+                    description: format!("a format-2 payload of 3 words whose second word has zero bytes at positions {:?} (of its first six) is cut into {} words (payload {})", (0..6).filter(|b| mask & (1 << b) != 0).collect::<Vec<_>>(), ws.len(), hex(&p)),
+                    replay: json!({"kind": "detector", "payload_hex": hex(&p)}),
+                });
+            }
+        } else if !matches!(got, Ok(Ok(_))) {
+            rep.violation(Violation { signature: "slice:detector-row-failed".into(), description: format!("payload {} : {:?}", hex(&p), got.as_ref().map(|r| r.as_ref().map(|v| v.len()))), replay: json!({"kind": "detector", "payload_hex": hex(&p)}) });
+        }
+    }
     let mut rcases = Vec::new();
     for fmt in [0u8, 2] {
         for ff in [16usize, 17, 25, 40] {
@@ -330,7 +360,7 @@ pub fn run(tier: Tier) -> i32 {
     rep.cov("evaluations", json!(cases.len() + vcases.len() + rcases.len() + wcases.len()));
     rep.cov("distinct_nontrivial", json!(nontrivial));
     rep.cov("exhaustive", json!(true));
-    rep.cov("rule", json!("formats {0,2} x word counts {0..=12, 511, 512, 700 (quick) / every count 0..=700 (thorough)} x 0..=40 trailing 0xFF bytes through preprocess_payload and (x 2 modes) through a real LinkValidator with individually recognisable faulty words; reset after the padding error for 16/17/25/40 bytes x 3 lead-in states x 2 formats; the two readout-frame views through the real CLI for word counts {2,3,8..11,16} (quick) / {2..=40,511,512,700} (thorough) x 0..=15 padding bytes x 2 formats, every printed row compared with the model's decode. non-trivial = at least one padding byte present"));
+    rep.cov("rule", json!("formats {0,2} x word counts {0..=12, 511, 512, 700 (quick) / every count 0..=700 (thorough)} x 0..=40 trailing 0xFF bytes through preprocess_payload and (x 2 modes) through a real LinkValidator with individually recognisable faulty words; all 63 proper subsets of zero bytes among the first six bytes of the second word of a format-2 payload (must not be taken for format 0); reset after the padding error for 16/17/25/40 bytes x 3 lead-in states x 2 formats; the two readout-frame views through the real CLI for word counts {2,3,8..11,16} (quick) / {2..=40,511,512,700} (thorough) x 0..=15 padding bytes x 2 formats, every printed row compared with the model's decode. non-trivial = at least one padding byte present"));
     rep.sample(json!({"fmt": 2, "words": 3, "ff": 10, "payload_hex": hex(&build_payload(2, 3, 10))}));
     rep.sample(json!({"fmt": 0, "words": 2, "ff": 16, "expect": "one 'Payload error following RDH', no word examined, FSM reset"}));
     rep.assume("word contents do not imitate the other format's padding (a format-2 payload whose bytes 10..15 are all zero is the separate row of C02/known findings)");
